@@ -176,7 +176,7 @@ def run(tier, seed, replay_file=None):
         cases = list(path_cases(3))
         o.extra["single_path_cases"] = len(cases)
         cases = list(name_cases()) + cases
-        cases += tree_cases(rnd, 1500 if tier == "quick" else 15000)
+        cases += tree_cases(rnd, 1500 if tier == "quick" else 60000)
     # a flipped instance of a bundle with non-port leaves is not flippable (documented): such cases may be rejected; keep only flippable flips
     evs = pool_map(run_case, list(enumerate(cases)), chunksize=64)
     files = tlc.split_batches([[e] for e in evs], WORK / "c10", f"tr-{tier}", NPROC)
